@@ -37,6 +37,8 @@ func checkC01(p *Prog, r *Report) {
 	r.rule("C01.S8", "Recv copies a segment's data into the caller's buffer and advances by its length before recycling it", 1)
 	r.rule("C01.S9", "WriteBuffers hands kcp.Send pieces of at most mss bytes and continues exactly where the piece ended; n counts each input slice once", 2)
 	r.rule("C01.S10", "bufptr is assigned only recvbuf[n:] / bufptr[n:] with n the result of the copy just made; a Read takes at most one message from the core", 3)
+	r.rule("C01.S17", "what Write reports is what was queued: in WriteBuffers every return that can follow a kcp.Send returns the running count of queued bytes (the local increased by len(b) per buffer), never a constant; and since WriteBuffers does not look at Send's result, KCP.Send refuses (negative return) only for reasons visible in its argument — the empty buffer and the fragment count — never for connection state", 3)
+	r.rule("C01.S16", "no empty message enters the send queue: KCP.Send refuses len(buffer) == 0 unconditionally before it queues anything — the session reader acts on PeekSize() > 0 only, so a zero-length message at the head of the peer's delivery queue is never consumed and everything written after it is stuck behind it", 1)
 	r.rule("C01.S15", "the reader's carry-over bytes stay owned: a buffer that bufptr (or another field) points into is never handed back to the pool without clearing that pointer (= C15.O6)", 0)
 	r.rule("C01.S14", "the receiver stores what the header says: the segment handed to parse_data binds sn and frg to the header fields read at the encoder's offsets for sn and frg, and data to data[:len] with len read at the encoder's offset of the length", 1)
 	r.rule("C01.S13", "recovered packets carry no checksum of their own, so the stream inherits the FEC framing discipline: emission of absent data slots only, cache wipe/flag pairing, padding before Encode/ReconstructData, size prefix written and validated (= C07.F1, F1b, F2, F3, F6)", 10)
@@ -177,74 +179,7 @@ func checkC01(p *Prog, r *Report) {
 			}
 		}
 	}
-	// shrink_buf, path by path: snd_una becomes the sn of snd_buf's head when there is one, snd_nxt otherwise
-	shrinkExact := false
-	if sh := p.FuncByName("(*KCP).shrink_buf"); sh != nil {
-		if sps, understood := p.SymPaths(sh); understood && len(sps) > 0 {
-			kcpT := tVar(p.selfVar(sh))
-			peek := normTerm(tCall(p.Method("RingBuffer", "Peek"), p.F(kcpT, "KCP", "snd_buf")))
-			got := &Term{Op: "proj", Int: 0, Args: []*Term{peek}}
-			okT := &Term{Op: "proj", Int: 1, Args: []*Term{peek}}
-			good, some, none := true, 0, 0
-			var badNode ast.Node
-			for _, sp := range sps {
-				var v *Term
-				cnt := 0
-				for _, st := range sp.Stores {
-					if st.Lhs.Key() == p.F(kcpT, "KCP", "snd_una").Key() {
-						v = st.Val
-						cnt++
-						badNode = st.Node
-					} else {
-						good = false
-					}
-				}
-				has := func(w *Term) bool {
-					for _, ct := range sp.Conds {
-						for _, a := range Conjuncts(ct) {
-							if a.Key() == w.Key() {
-								return true
-							}
-						}
-					}
-					return false
-				}
-				switch {
-				case cnt >= 1 && v.Key() == p.F(got, "segment", "sn").Key() && has(okT): // the last store on the path decides
-					some++
-				case cnt >= 1 && v.Key() == p.F(kcpT, "KCP", "snd_nxt").Key() && has(Negate(okT)):
-					none++
-				default:
-					good = false
-				}
-			}
-			if good && some > 0 && none > 0 {
-				shrinkExact = true
-				r.ok("C01.S4", sh.Name, p.Pos(sh.Node), "value of snd_una in shrink_buf", "on every path: the head segment's sn when Peek succeeds, snd_nxt when the buffer is empty")
-			} else {
-				pos := p.Pos(sh.Node)
-				if badNode != nil {
-					pos = p.Pos(badNode)
-				}
-				r.bad("C01.S4", sh.Name, pos, "value of snd_una in shrink_buf", "some path of shrink_buf does not set snd_una to the head segment's sn (buffer not empty) resp. snd_nxt (buffer empty): acknowledged data is considered outstanding, or outstanding data acknowledged", "")
-			}
-		}
-	}
-	for _, st := range p.FieldStores(p.Field("KCP", "snd_una")) {
-		if st.Fn.Name == "NewKCP" {
-			continue
-		}
-		if shrinkExact && st.Fn.Name == "(*KCP).shrink_buf" {
-			r.ok("C01.S4", st.Fn.Name, p.Pos(st.Node), "store(KCP.snd_una) in "+st.Fn.Name, "shrink_buf (value decided path by path)")
-			continue
-		}
-		okU := st.Fn.Name == "(*KCP).shrink_buf"
-		if okU && st.Rhs != nil {
-			t := p.Term(st.Rhs)
-			okU = (t.Op == "fld" && (t.Obj == p.Field("segment", "sn") || t.Obj == p.Field("KCP", "snd_nxt")))
-		}
-		r.check(okU, "C01.S4", st.Fn.Name, p.Pos(st.Node), "store(KCP.snd_una) in "+st.Fn.Name, "shrink_buf: head of snd_buf or snd_nxt", "snd_una is stored outside shrink_buf or with another value: acknowledged data can be considered outstanding (or the reverse)")
-	}
+	checkSndUnaStores(p, r, "C01.S4")
 
 	// ---- S5
 	{
@@ -498,6 +433,8 @@ func checkC01(p *Prog, r *Report) {
 	delegate(p, r, "C15", checkC15, "C15.O6", "C01.S15")
 	checkStoredSegmentFields(p, r)
 	checkCoreCutting(p, r)
+	checkEmptySendRefused(p, r, "C01.S16")
+	checkWriteAccounting(p, r)
 	checkSessionChunking(p, r)
 	checkReadCarryOver(p, r)
 
@@ -1144,4 +1081,256 @@ func parseUnaCallbackForm(p *Prog, fi *FuncInfo, s Site, una *Term) (bool, strin
 		return true, ""
 	}
 	return false, fmt.Sprintf("freed only under _itimediff(una, seg.sn) > 0: %v; counted exactly once with the recycle: %v; the scan stops at the first segment that is not acknowledged: %v; Discard(count) after the scan: %v", okAck, cnt == 1, stops, disc)
+}
+
+// checkSndUnaStores: snd_una is stored by shrink_buf alone (and the constructor), and there it becomes, path by
+// path, the sn of snd_buf's head when there is one and snd_nxt otherwise. Shared by C01.S4 and C04.W9.
+func checkSndUnaStores(p *Prog, r *Report, rule string) {
+	// shrink_buf, path by path: snd_una becomes the sn of snd_buf's head when there is one, snd_nxt otherwise
+	shrinkExact := false
+	if sh := p.FuncByName("(*KCP).shrink_buf"); sh != nil {
+		if sps, understood := p.SymPaths(sh); understood && len(sps) > 0 {
+			kcpT := tVar(p.selfVar(sh))
+			peek := normTerm(tCall(p.Method("RingBuffer", "Peek"), p.F(kcpT, "KCP", "snd_buf")))
+			got := &Term{Op: "proj", Int: 0, Args: []*Term{peek}}
+			okT := &Term{Op: "proj", Int: 1, Args: []*Term{peek}}
+			good, some, none := true, 0, 0
+			var badNode ast.Node
+			for _, sp := range sps {
+				var v *Term
+				cnt := 0
+				for _, st := range sp.Stores {
+					if st.Lhs.Key() == p.F(kcpT, "KCP", "snd_una").Key() {
+						v = st.Val
+						cnt++
+						badNode = st.Node
+					} else {
+						good = false
+					}
+				}
+				has := func(w *Term) bool {
+					for _, ct := range sp.Conds {
+						for _, a := range Conjuncts(ct) {
+							if a.Key() == w.Key() {
+								return true
+							}
+						}
+					}
+					return false
+				}
+				switch {
+				case cnt >= 1 && v.Key() == p.F(got, "segment", "sn").Key() && has(okT): // the last store on the path decides
+					some++
+				case cnt >= 1 && v.Key() == p.F(kcpT, "KCP", "snd_nxt").Key() && has(Negate(okT)):
+					none++
+				default:
+					good = false
+				}
+			}
+			if good && some > 0 && none > 0 {
+				shrinkExact = true
+				r.ok(rule, sh.Name, p.Pos(sh.Node), "value of snd_una in shrink_buf", "on every path: the head segment's sn when Peek succeeds, snd_nxt when the buffer is empty")
+			} else {
+				pos := p.Pos(sh.Node)
+				if badNode != nil {
+					pos = p.Pos(badNode)
+				}
+				r.bad(rule, sh.Name, pos, "value of snd_una in shrink_buf", "some path of shrink_buf does not set snd_una to the head segment's sn (buffer not empty) resp. snd_nxt (buffer empty): acknowledged data is considered outstanding, or outstanding data acknowledged", "")
+			}
+		}
+	}
+	for _, st := range p.FieldStores(p.Field("KCP", "snd_una")) {
+		if st.Fn.Name == "NewKCP" {
+			continue
+		}
+		if shrinkExact && st.Fn.Name == "(*KCP).shrink_buf" {
+			r.ok(rule, st.Fn.Name, p.Pos(st.Node), "store(KCP.snd_una) in "+st.Fn.Name, "shrink_buf (value decided path by path)")
+			continue
+		}
+		okU := st.Fn.Name == "(*KCP).shrink_buf"
+		if okU && st.Rhs != nil {
+			t := p.Term(st.Rhs)
+			okU = (t.Op == "fld" && (t.Obj == p.Field("segment", "sn") || t.Obj == p.Field("KCP", "snd_nxt")))
+		}
+		r.check(okU, rule, st.Fn.Name, p.Pos(st.Node), "store(KCP.snd_una) in "+st.Fn.Name, "shrink_buf: head of snd_buf or snd_nxt", "snd_una is stored outside shrink_buf or with another value: acknowledged data can be considered outstanding (or the reverse)")
+	}
+}
+
+// checkEmptySendRefused: in KCP.Send a test equivalent to len(buffer) <= 0 whose true edge leads straight to a
+// negative return dominates every snd_queue.Push (and every in-place extension of a queued segment).
+// Shared by C01.S16 and C02.A12.
+func checkEmptySendRefused(p *Prog, r *Report, rule string) {
+	send := p.FuncOf(p.Method("KCP", "Send"))
+	c := p.CFG(send)
+	bufP, _ := send.paramObj(p, 0).(*types.Var)
+	if bufP == nil {
+		r.bad(rule, send.Name, p.Pos(send.Node), "empty message refused", "Send has no buffer parameter", "")
+		return
+	}
+	want, _ := leZero(le(mk("len", tVar(bufP)), tConst(0)))
+	var gate *cfg.Block
+	for _, b := range c.live {
+		ct := c.CondTerm(b)
+		if ct == nil || len(b.Succs) != 2 {
+			continue
+		}
+		isEmpty := false
+		if ct.Op == "==" && len(ct.Args) == 2 {
+			for i := 0; i < 2; i++ {
+				if ct.Args[i].IsConst() && ct.Args[i].Int == 0 && ct.Args[1-i].Key() == mk("len", tVar(bufP)).Key() {
+					isEmpty = true
+				}
+			}
+		}
+		if l, ok := leZero(ct); ok && l.Equal(want) {
+			isEmpty = true
+		}
+		if !isEmpty {
+			continue
+		}
+		// the true edge returns a negative constant at once
+		for _, nd := range b.Succs[0].Nodes {
+			if rs, ok := nd.(*ast.ReturnStmt); ok && len(rs.Results) == 1 {
+				if v, ok := p.constVal(rs.Results[0]); ok && v < 0 {
+					gate = b
+				}
+			}
+		}
+	}
+	if gate == nil {
+		r.bad(rule, send.Name, p.Pos(send.Node), "empty message refused", "Send has no test len(buffer) == 0 that returns a negative value at once: an empty message can be queued (in some mode); the peer's session reader never consumes a zero-length message, so everything behind it is never delivered", "")
+		return
+	}
+	n := 0
+	okAll := true
+	why := ""
+	fQ := p.Field("KCP", "snd_queue")
+	for _, s := range p.CallsTo(p.Method("RingBuffer", "Push")) {
+		if rootFuncInfo(s.Fn) != send {
+			continue
+		}
+		if _, ok := fieldBase(s.Recv, fQ); !ok {
+			continue
+		}
+		n++
+		if s.Fn == send {
+			if pt, ok := c.PointOf(s.Call); !ok || !c.BlockDominates(gate, pt.B) || pt.B == gate.Succs[0] {
+				okAll, why = false, "snd_queue.Push at "+p.Pos(s.Call)+" is not preceded by the empty-message refusal on every path"
+			}
+		}
+	}
+	if n == 0 {
+		okAll, why = false, "Send queues nothing"
+	}
+	// the gate itself must be reached unconditionally (entry dominates trivially; nothing may branch around it)
+	for _, ct := range c.localDominatingConds(Point{gate, 0}) {
+		okAll, why = false, "the refusal of empty messages is itself conditional on "+pretty(ct.Key())
+	}
+	r.check(okAll, rule, send.Name, p.Pos(send.Node), "empty message refused", "if len(buffer) == 0 { return <0 } before anything is queued", why+": an empty message can be queued; the peer's session reader never consumes a zero-length message, so everything behind it is never delivered")
+}
+
+// checkWriteAccounting: C01.S17.
+func checkWriteAccounting(p *Prog, r *Report) {
+	wb := p.FuncByName("(*UDPSession).WriteBuffers")
+	sendM := p.Method("KCP", "Send")
+	c := p.CFG(wb)
+	// the accumulator: the local that receives += len(...)
+	var acc *types.Var
+	inspectBody(wb, func(x ast.Node) bool {
+		if as, ok := x.(*ast.AssignStmt); ok && as.Tok == token.ADD_ASSIGN && len(as.Lhs) == 1 && len(as.Rhs) == 1 {
+			if t := p.Term(as.Rhs[0]); t.Op == "len" {
+				if v := identVar(p, as.Lhs[0]); v != nil {
+					acc = v
+				}
+			}
+		}
+		return true
+	})
+	usesResult := true
+	n := 0
+	for _, s := range p.CallsTo(sendM) {
+		if rootFuncInfo(s.Fn) != wb {
+			continue
+		}
+		n++
+		if _, isStmt := p.parents[s.Call].(*ast.ExprStmt); isStmt {
+			usesResult = false
+		}
+		pt, ok := c.PointOf(s.Call)
+		if !ok || s.Fn != wb {
+			continue
+		}
+		construct := "returns after " + exprString(s.Call.Fun) + "(" + exprString(s.Call.Args[0]) + ")"
+		res := c.FindPath(PathQuery{From: Point{pt.B, pt.I + 1}, IsTarget: func(nd ast.Node, _ Point) bool {
+			rs, isR := nd.(*ast.ReturnStmt)
+			if !isR || len(rs.Results) == 0 {
+				return false
+			}
+			t := p.Term(rs.Results[0])
+			return !(acc != nil && t.Op == "var" && t.Obj == acc)
+		}})
+		if acc == nil {
+			r.bad("C01.S17", wb.Name, p.Pos(s.Call), construct, "WriteBuffers keeps no running count of queued bytes", "")
+		} else if res.Found {
+			r.bad("C01.S17", wb.Name, p.Pos(s.Call), construct, "after data has been queued WriteBuffers can return something other than the count of queued bytes ("+acc.Name()+"): the caller is told 0 (or an error) for bytes that will be delivered — re-submitting them duplicates bytes in the stream", c.DescribePath(res.Path))
+		} else {
+			r.ok("C01.S17", wb.Name, p.Pos(s.Call), construct, "every return reachable after the call returns "+acc.Name())
+		}
+	}
+	if n == 0 {
+		r.bad("C01.S17", wb.Name, p.Pos(wb.Node), "kcp.Send in WriteBuffers", "WriteBuffers never calls KCP.Send", "")
+		return
+	}
+	// refusals of Send
+	send := p.FuncOf(sendM)
+	sc := p.CFG(send)
+	self := p.selfVar(send)
+	allowedFields := map[types.Object]bool{p.Field("KCP", "mss"): true, p.Field("KCP", "stream"): true}
+	m := 0
+	inspectBody(send, func(x ast.Node) bool {
+		rs, ok := x.(*ast.ReturnStmt)
+		if !ok || len(rs.Results) != 1 {
+			return true
+		}
+		v, isC := p.constVal(rs.Results[0])
+		if !isC || v >= 0 {
+			return true
+		}
+		m++
+		pt, _ := sc.PointOf(rs)
+		bad := ""
+		for _, ca := range sc.DominatingCondsAt(pt) {
+			// the fall-through side of an earlier refusal (if X { return … }) is not a reason for this one
+			skip := false
+			for _, sb := range ca.B.Succs {
+				if sc.BlockDominates(sb, pt.B) {
+					continue
+				}
+				for _, nd := range sb.Nodes {
+					if _, isRet := nd.(*ast.ReturnStmt); isRet {
+						skip = true
+					}
+				}
+			}
+			if skip {
+				continue
+			}
+			for _, a := range Conjuncts(p.resolveSingleDefs(send, ca.T)) {
+				a.Walk(func(t *Term) {
+					if t.Op == "fld" && len(t.Args) == 1 && t.Args[0].Op == "var" && t.Args[0].Obj == self && !allowedFields[t.Obj] {
+						bad = pretty(a.Key())
+					}
+				})
+			}
+		}
+		if usesResult {
+			r.ok("C01.S17", send.Name, p.Pos(rs), "refusal "+exprString(rs.Results[0])+" of KCP.Send", "WriteBuffers inspects Send's result")
+		} else {
+			r.check(bad == "", "C01.S17", send.Name, p.Pos(rs), "refusal "+exprString(rs.Results[0])+" of KCP.Send", "depends on the argument only (empty buffer, fragment count)", "Send refuses data depending on connection state ("+bad+"), but WriteBuffers does not look at Send's result: the bytes are counted as written and silently dropped — a hole in the stream")
+		}
+		return true
+	})
+	if m == 0 {
+		r.ok("C01.S17", send.Name, p.Pos(send.Node), "refusals of KCP.Send", "Send never refuses")
+	}
 }
